@@ -581,6 +581,21 @@ func cmdRun(args []string) int {
 				plan = shrink(b, plan, v.Signature)
 			}
 		}
+		if plan != nil {
+			// record digest/detail of the plan actually written (the minimised one)
+			if rr := runPlan(b, plan, false); rr != nil && hasSig(rr, v.Signature) {
+				rr.Seed = r.Seed
+				for i := range rr.Violations {
+					if rr.Violations[i].Signature == v.Signature {
+						v = &rr.Violations[i]
+					}
+				}
+				if rr.World == "" {
+					rr.World = r.World
+				}
+				r = rr
+			}
+		}
 		path := writeReplay(*prop, r, v, plan, origLen)
 		fmt.Printf("VIOLATION property=%s replay=%s\n", propOf(*prop, v), path)
 		fmt.Printf("  signature: %s\n  detail: %s\n  seed: %d  plan items: %d -> %d\n", v.Signature, trunc(v.Detail, 600), r.Seed, origLen, planLen(plan))
